@@ -81,7 +81,15 @@ def build(r):
             kw['meta'] = build(r['meta'])
         if 'visual' in r:
             kw['visual'] = build(r['visual'])
-        return cls(**kw)
+        obj = cls(**kw)
+        # a region that WAS valid and whose public data were then changed
+        # by the application ('setpub': attribute of a parameter object;
+        # 'poke': the stored parameter itself)
+        for par, attr, val in r.get('setpub', []):
+            setattr(getattr(obj, par), attr, build(val))
+        for par, val in r.get('poke', []):
+            obj.__dict__[par] = build(val)
+        return obj
     if t == 'compound':
         import regions
         cls = getattr(regions, r['cls'])
